@@ -226,7 +226,8 @@ func checkC09(c *Ctx) *report.Result {
 					ev := c.evalDecoderFrom(st, write, 0xA000, 0xBFFF, nil, nil)
 					bank, off, n := bankIndex(ev, storage)
 					kind := map[bool]string{false: "read", true: "write"}[write]
-					okOff := off != nil && off.HasBase && off.Base == ev.AddrSym && off.Off == -0xA000 && off.Lo >= 0 && off.Hi < 0x2000
+					offv, offok := addrOffset(off, ev.AddrSym, ev.Lo, ev.Hi)
+					okOff := offok && offv == -0xA000 && off.Lo >= 0 && off.Hi < 0x2000
 					okBank := matchBits(bank, reduce(cs.want, banks))
 					detail := fmt.Sprintf("accesses ram[%s][%s]; documented bank bits (msb first) %s, offset addr-0xA000", ai.ValueString(bank), ai.ValueString(off), specString(reduce(cs.want, banks), it))
 					if write {
